@@ -334,6 +334,8 @@ func metaExec(c *runCtx, ops []string) {
 			err := m.db.DeleteContainer(numCID(o.int("c")))
 			res = "=> " + metaErrClass(err)
 			sh.delCnr(o.int("c"))
+		case "sync":
+			res = "=> " + metaErrClass(m.db.SyncCounters())
 		case "delete":
 			_, _, err := m.db.Delete(numCID(o.int("c")), idList(o.ints("ids")))
 			res = "=> " + metaErrClass(err)
@@ -547,8 +549,10 @@ func (g *metaGenState) op() string {
 		return fmt.Sprintf("meta delete c=%d ids=%s", cn, joinInts(g.ids()))
 	case k < 94:
 		return fmt.Sprintf("meta revive c=%d o=%d", cn, g.target())
-	case k < 98:
+	case k < 96:
 		return fmt.Sprintf("meta inhumecnr c=%d", cn)
+	case k < 98:
+		return "meta sync"
 	default:
 		return fmt.Sprintf("meta delcnr c=%d", cn)
 	}
